@@ -277,6 +277,8 @@ class PubSubRun:
             self.setup()
             if self.forced and self.forced.get("table") == "c14":
                 self.c14_case(self.forced)
+            elif self.forced and self.forced.get("table") == "long_stream":
+                self.long_stream(self.forced)
             else:
                 for _ in range(self.n_ops):
                     self.one_op()
@@ -292,6 +294,32 @@ class PubSubRun:
             self.collect()
             self.w.teardown()
         return res
+
+    def long_stream(self, f):
+        """a long-lived connection: tens of thousands of frames to one subscriber (sequence numbers
+        must keep counting; 32767 and 65535 are crossed)"""
+        ch = self.ch
+        w = self.w
+        w.max_rounds = 10 ** 7
+        T = 1000
+        self.universe = [T]
+        sub = self.new_actor("S")
+        sub.open()
+        sub.handshake("v2v1", req_id=30, name=b"")
+        sub.subscribe(T)
+        pub = self.new_actor("P")
+        pub.open()
+        pub.handshake("v2v1", req_id=31, name=b"")
+        w.quiesce()
+        n = f["n"]
+        self.t(f"P publishes {n} frames of type {T} to one subscriber; S sends a control frame every 5000")
+        for i in range(n):
+            pub.send_raw(pub.frame(T, b""))
+            if i % 5000 == 4999:
+                sub.subscribe(T)           # acks are numbered in the same sequence
+                w.quiesce(limit=10 ** 6)
+        w.quiesce(limit=10 ** 6)
+        self.res.probes[f"long_stream_{n}"] += 1
 
     def c14_case(self, f):
         """one cell of the finite C14 table: k subscribers, each writable / not writable / failing on
@@ -769,6 +797,10 @@ class PubSubRun:
 
 def run(choices, prop: str, overrides=None, forced=None) -> RunResult:
     return PubSubRun(choices, prop, overrides, forced).run()
+
+
+def c05_det_cases(tier):
+    return [dict(table="long_stream", n=33000), dict(table="long_stream", n=66000)]
 
 
 def c14_det_cases(tier):
